@@ -219,7 +219,8 @@ def codec_queries(prop, tier):
                 bws = (1,) if kind == 1 else ()
             ns = (5,)
         else:
-            bws = (0, 1, 8, 33, 64) if wide else (0, 1, 2, 7, 8, 9, 16, 31, 32)
+            bws = ((0, 1, 8, 33, 64) if kind == 1 else (0, 1, 8)) if wide else (0, 1, 2, 7, 8, 9, 16, 31, 32)
+            # (delta64 at bit widths 33 / 64 with 5 scaled elements: over an hour per round-trip query, not registered)
             ns = (5,) if wide else (4, 5, 9)
         for bw in bws:
             for n in ns:
